@@ -236,6 +236,58 @@ def run_c17(tier, seed):
         shutil.rmtree(wd, ignore_errors=True)
 
 
+# ---- back-pressure scenarios (8 KB socket buffers) ----------------------------------------------------
+
+def _st(**kw):
+    return dict({"op": "", "c": "", "n": "", "reqs": [], "hex": "", "kind": "", "cls": "", "to": "", "count": 0, "src": "", "text": "", "cuts": [], "desc": []}, **kw)
+
+
+def backend_backpressure_scenario(sid, nbig=12, bigsize=16000, rounds=4, chunk=40000):
+    """A node that does not read while a client pipelines large requests for it, then drains in parts while the client keeps
+    sending: the proxy's outbound buffer for that node spills beyond its 64 KB static part and is drained piecewise."""
+    req = lambda args, sl=("A",): {"k": "cmd", "slots": list(sl), "args": list(args), "dups": [-1] * len(sl)}
+    step = lambda stim, settle=True: {"stim": stim, "settle": settle, "noIter": False}
+    steps = [step([_st(op="npause", n="n1")]),
+             step([_st(op="send", c="c1", reqs=[req(["SET", "@0", "rnd:%d:%d" % (bigsize, 100 + k)]) for k in range(nbig)])])]
+    for r in range(rounds):
+        steps.append(step([_st(op="nreadsome", n="n1", count=chunk)]))
+        steps.append(step([_st(op="send", c="c1", reqs=[req(["GET", "@0"]), req(["SET", "@0", "rnd:3000:%d" % (200 + r)])])]))
+    steps.append(step([_st(op="nresume", n="n1")]))
+    for _ in range(3):
+        steps.append(step([_st(op="answer", n="n1", kind="ok", count=nbig + 2 * rounds + 2)]))
+    return {"id": sid, "role": "", "steps": steps}
+
+
+def slow_reader_interleaved_scenario(sid, bigsize=300000, rounds=6, chunk=50000):
+    """A client that reads a large reply in parts while further replies for it keep arriving."""
+    req = lambda args, sl=("A",): {"k": "cmd", "slots": list(sl), "args": list(args), "dups": [-1] * len(sl)}
+    step = lambda stim, settle=True: {"stim": stim, "settle": settle, "noIter": False}
+    big = resp_bulk(bytes((i * 11 + 1) % 256 for i in range(bigsize)))
+    steps = [step([_st(op="pause", c="c1"), _st(op="send", c="c1", reqs=[req(["GET", "@0"])])]),
+             step([_st(op="answer", n="n1", kind="raw", hex=big.hex())]), step([_st(op="sleep", count=20)])]
+    for r in range(rounds):
+        steps.append(step([_st(op="readsome", c="c1", count=chunk)]))
+        steps.append(step([_st(op="send", c="c1", reqs=[req(["GET", "@0"], ("B",))])]))
+        steps.append(step([_st(op="answer", n="n2", kind="raw", hex=resp_bulk(bytes((i * 3 + r) % 256 for i in range(2000 + 37 * r))).hex())]))
+    steps.append(step([_st(op="resume", c="c1")]))
+    steps.append(step([]))
+    steps.append(step([_st(op="answer", n=n, kind="ok", count=4) for n in ("n1", "n2")]))
+    return {"id": sid, "role": "", "steps": steps}
+
+
+BP_CFG = {"masters": 3, "mode": "step", "rawLog": True, "smallBuf": True}
+
+
+def backpressure_scenarios(quick):
+    scs = [backend_backpressure_scenario("bp-backend-1"), slow_reader_interleaved_scenario("bp-slow-reader-1")]
+    if not quick:
+        scs += [backend_backpressure_scenario("bp-backend-2", nbig=30, bigsize=9000, rounds=8, chunk=25000),
+                backend_backpressure_scenario("bp-backend-3", nbig=6, bigsize=60000, rounds=6, chunk=70000),
+                slow_reader_interleaved_scenario("bp-slow-reader-2", bigsize=1000000, rounds=8, chunk=90000),
+                slow_reader_interleaved_scenario("bp-slow-reader-3", bigsize=150000, rounds=5, chunk=20000)]
+    return scs
+
+
 # ---- C02 -----------------------------------------------------------------------------------------
 
 def resp_bulk(b):
@@ -325,6 +377,8 @@ def run_c02(tier, seed):
         # the same with a backend password and replica reads (AUTH / READONLY handshakes on the backend connections)
         sub = [s for x, s in enumerate(scs) if x % (4 if q else 2) == 0]
         cfgs.append(({"masters": 3, "replicas": 1, "password": "pw", "mode": "step", "rawLog": True}, sub, "c02pw"))
+        # back-pressure on a backend connection and a partially draining slow reader (8 KB socket buffers)
+        cfgs.append((dict(BP_CFG), backpressure_scenarios(q), "c02bp"))
         viol, other = [], {}
         tot = {"states": 0, "transitions": 0, "traces": 0, "events": 0, "crashes": 0, "unrealised": 0, "harness_errors": []}
         for cfg, ss, tag in cfgs:
